@@ -29,13 +29,17 @@ def utmZoneI (band ilon : Int) : Int :=
 
 def fl (x : F64) : Int := Dy.floor (F64.floor x).toDy
 
+/-- `MGRS::LatitudeBand(lat)`: the latitude is clamped to [-90, 90] (NaN ↦ 90) before the conversion to `int` -/
+def latitudeBand (lat : F64) : Int :=
+  latitudeBandI (fl (F64.fmax (F64.ofInt (-Gen.MathC.qd)) (F64.fmin (F64.ofInt Gen.MathC.qd) lat)))
+
 def standardZone (lat lon : F64) (setzone : Int) : Except Err Int :=
   if !(setzone ≥ zMINPSEUDOZONE ∧ setzone ≤ zMAXZONE) then .error "illegal zone requested"
   else if setzone ≥ zMINZONE ∨ setzone = zINVALID then .ok setzone
   else if !(lat.isFinite && lon.isFinite) then .ok zINVALID
   else if setzone = zUTM ∨ (F64.ge lat (F64.ofInt (-80)) && F64.lt lat (F64.ofInt 84)) then
     -- int(floor(±inf)) is undefined in C++; the public entry points reject |lat| > 90 first, lon = ±inf gives NaN
-    .ok (utmZoneI (latitudeBandI (fl lat)) (fl (MathF.angNormalize lon)))
+    .ok (utmZoneI (latitudeBand lat) (fl (MathF.angNormalize lon)))
   else .ok zUPS
 
 /-! ## ranges -/
